@@ -174,7 +174,14 @@ func ruleCryptoConstants(c *core.Ctx, rule string) {
 						}
 					}
 					sl, ok := e.(*ast.SliceExpr)
-					if !ok || sl.Low != nil || sl.High == nil || !strings.HasSuffix(core.ExprStr(sl.High), ".keyBytes") {
+					if !ok || sl.Low != nil || sl.High == nil || !strings.HasSuffix(strings.Trim(core.ExprStrAliased(fn, sl.High), "()"), ".keyBytes") {
+						if ok && sl.Low == nil && sl.High != nil {
+							if _, isK := core.IntConst(info, sl.High); !isK && !strings.Contains(core.ExprStrAliased(fn, sl.High), "keyBytes") {
+								// a bound the rule cannot relate to keyBytes
+								o.Unrec("%s: a re-hash round hashes %s: whether the bound is the key length is not followed", c.Prog.Pos(cs.Call.Pos()), c.Prog.Src(arg))
+								continue
+							}
+						}
 						o.FailAt(fn.Site(cs.Call, ""), "%s: a re-hash round hashes %s; it must hash only the first keyBytes bytes of the previous digest", c.Prog.Pos(cs.Call.Pos()), c.Prog.Src(arg))
 					}
 				}
@@ -254,6 +261,10 @@ func ruleCryptoConstants(c *core.Ctx, rule string) {
 			core.Undecided("loop structure of slowHash not recognised")
 		}
 		o.At(fn.Site(outer, "round loop"))
+		if outer.Cond == nil {
+			o.Unrec("the round loop of slowHash has no condition in its header: the termination test (i < 64 || last byte > i-32), the hash selection and the input construction are not located in this form")
+			return
+		}
 		src = strings.ReplaceAll(core.ExprStr(outer.Cond), " ", "")
 		o.Require(strings.Contains(src, "i<64||"), "round loop condition %s does not force 64 rounds", src)
 		o.Require(strings.Contains(src, ">i-32"), "round loop condition %s does not implement 'last byte > round - 32'", src)
@@ -322,9 +333,12 @@ func ruleCryptoConstants(c *core.Ctx, rule string) {
 			})
 		}
 		want := map[int64]string{0: "crypto/sha256.New", 1: "crypto/sha512.New384", 2: "crypto/sha512.New"}
+		if len(sel) == 0 {
+			o.Unrec("how the hash function is selected from the remainder was not found (neither a switch over the remainder nor a table of constructors)")
+		}
 		for k, w := range want {
 			o.Count(1)
-			if sel[k] != w {
+			if len(sel) > 0 && sel[k] != w {
 				o.Fail("remainder %d selects %s, want %s", k, sel[k], w)
 			}
 		}
@@ -382,6 +396,10 @@ func ruleCryptoConstants(c *core.Ctx, rule string) {
 		for i, w := range want {
 			o.Count(1)
 			if lay[i] != w {
+				if !explainedBy([]string{lay[i]}, []string{"sec.P"}) {
+					o.Unrec("computePerms: byte %d of the /Perms block is %q: not reduced to a byte of P or a constant", i, lay[i])
+					continue
+				}
 				o.Fail("computePerms: byte %d of the /Perms block is %q, want %q", i, lay[i], w)
 			}
 		}
@@ -451,6 +469,10 @@ func ruleCryptoConstants(c *core.Ctx, rule string) {
 		if viaTable {
 			for i, w := range want {
 				if got[i] != w {
+					if !explainedBy([]string{got[i]}, []string{"sec.P"}) {
+						o.Unrec("checkPerms: byte %d compared with %q: not reduced to a byte of P or a constant", i, got[i])
+						continue
+					}
 					o.Fail("checkPerms: byte %d compared with %q, want %q", i, got[i], w)
 				}
 			}
@@ -459,12 +481,20 @@ func ruleCryptoConstants(c *core.Ctx, rule string) {
 		}
 		for i, w := range want {
 			if i == 8 {
-				if got[8] != "emdCode" {
+				if got[8] != "emdCode" && got[8] != "70|84" {
+					if !explainedBy([]string{got[8]}, []string{"sec.P"}) {
+						o.Unrec("checkPerms: byte 8 compared with %q: whether this is the EncryptMetadata code is not followed", got[8])
+						continue
+					}
 					o.Fail("checkPerms: byte 8 compared with %q, want the EncryptMetadata code", got[8])
 				}
 				continue
 			}
 			if got[i] != w {
+				if !explainedBy([]string{got[i]}, []string{"sec.P"}) {
+					o.Unrec("checkPerms: byte %d compared with %q: not reduced to a byte of P or a constant", i, got[i])
+					continue
+				}
 				o.Fail("checkPerms: byte %d compared with %q, want %q", i, got[i], w)
 			}
 		}
@@ -511,17 +541,44 @@ func ruleCryptoConstants(c *core.Ctx, rule string) {
 		}
 		want := []string{"paddedUserPwd", "sec.O", "sec.P>>0", "sec.P>>8", "sec.P>>16", "sec.P>>24", "sec.ID", "255", "255", "255", "255"}
 		if strings.Join(seq, " | ") != strings.Join(want, " | ") {
-			o.Fail("hash input is %v, want %v", seq, want)
+			if explainedBy(seq, want) {
+				o.Fail("hash input is %v, want %v", seq, want)
+			} else {
+				o.Unrec("hash input is %v: not reduced to the pieces of Algorithm 2 (%v)", seq, want)
+			}
 		}
 		// the FFFFFFFF suffix is guarded by unencryptedMetadata && R >= 4
 		if ffV != nil {
 			conds := dominatingConds(g, ffV)
-			o.Require(len(conds) == 2 && conds[0] == "sec.R >= 4" && conds[1] == "sec.unencryptedMetadata", "the FFFFFFFF suffix is guarded by %v, want [sec.R >= 4 sec.unencryptedMetadata]", conds)
+			okG := len(conds) == 2 && conds[0] == "sec.R >= 4" && conds[1] == "sec.unencryptedMetadata"
+			if !okG {
+				// the same two facts through a condition kept in a local, or in another order
+				facts := map[string]bool{}
+				for _, a := range g.DominatingAtoms(ffV) {
+					t := strings.ReplaceAll(core.ExprStrAliased(fn, a.Expr), " ", "")
+					if !a.Neg {
+						facts[t] = true
+					}
+				}
+				okG = (facts["sec.R>=4"] || facts["(sec.R)>=4"]) && (facts["sec.unencryptedMetadata"] || facts["(sec.unencryptedMetadata)"])
+				mentions := false
+				for f := range facts {
+					if strings.Contains(f, "unencryptedMetadata") || strings.Contains(f, "sec.R") {
+						mentions = true
+					}
+				}
+				if !okG && !mentions && len(conds) > 0 {
+					o.Unrec("the FFFFFFFF suffix is guarded by %v: not followed to sec.R >= 4 and sec.unencryptedMetadata", conds)
+					okG = true
+				}
+			}
+			o.Require(okG, "the FFFFFFFF suffix is guarded by %v, want [sec.R >= 4 sec.unencryptedMetadata]", conds)
 		}
 		_ = info
 		for _, r := range g.Returns() {
 			rs := r.AST.(*ast.ReturnStmt)
-			o.Require(strings.ReplaceAll(core.ExprStr(rs.Results[0]), " ", "") == "key[:sec.keyBytes]", "the file key is %s, want key[:sec.keyBytes]", core.ExprStr(rs.Results[0]))
+			fk := strings.ReplaceAll(core.ExprStrAliased(fn, rs.Results[0]), " ", "")
+			o.Require(fk == "key[:sec.keyBytes]" || fk == "key[:(sec.keyBytes)]", "the file key is %s, want key[:sec.keyBytes]", core.ExprStr(rs.Results[0]))
 		}
 	})
 	c.Check(rule, "pdf.(*encryptInfo).AsDict/P", "/P is written as a signed 32-bit integer", func(o *core.Ob) {
@@ -568,13 +625,13 @@ func byteExpr(fn *core.Func, e ast.Expr) string {
 			arg := ast.Unparen(call.Args[0])
 			if be, ok := arg.(*ast.BinaryExpr); ok && be.Op == token.SHR {
 				if k, ok := core.IntConst(info, be.Y); ok {
-					return core.ExprStr(be.X) + ">>" + itoa(int(k))
+					return core.ExprStrAliased(fn, be.X) + ">>" + itoa(int(k))
 				}
 			}
-			return core.ExprStr(arg) + ">>0"
+			return core.ExprStrAliased(fn, arg) + ">>0"
 		}
 	}
-	return core.ExprStr(e)
+	return core.ExprStrAliased(fn, e)
 }
 
 // hashArg renders the argument of a hash Write.
@@ -629,7 +686,7 @@ func hashArg(fn *core.Func, e ast.Expr) string {
 			}
 		}
 	}
-	return core.ExprStr(e)
+	return core.ExprStrAliased(fn, e)
 }
 
 // bufferLayout performs a symbolic evaluation of the straight-line
@@ -1011,7 +1068,11 @@ func ruleKeyForRefLayout(c *core.Ctx) {
 		want := []string{"sec.key", "ref.Number()>>0", "ref.Number()>>8", "ref.Number()>>16", "ref.Generation()>>0", "ref.Generation()>>8", "115", "65", "108", "84"}
 		o.Fact("per-object key input: %v", seq)
 		if strings.Join(seq, " | ") != strings.Join(want, " | ") {
-			o.Fail("per-object key input is %v, ISO 32000-2 7.6.3.2 says %v", seq, want)
+			if explainedBy(seq, want) {
+				o.Fail("per-object key input is %v, ISO 32000-2 7.6.3.2 says %v", seq, want)
+			} else {
+				o.Unrec("per-object key input is %v: not reduced to the pieces of ISO 32000-2 7.6.3.2 (%v)", seq, want)
+			}
 		}
 		if saltV != nil {
 			isAES := func(e ast.Expr) bool {
@@ -1103,8 +1164,15 @@ func ruleKeyForRefLayout(c *core.Ctx) {
 			}
 			return true
 		}
+		aliases := fn.FieldAliases()
 		classify := func(at *core.V, e ast.Expr) string {
 			e = ast.Unparen(e)
+			if id, isID := e.(*ast.Ident); isID {
+				// fileKey := sec.key
+				if rhs, ok := aliases[info.ObjectOf(id)]; ok {
+					e = ast.Unparen(rhs)
+				}
+			}
 			if _, name, ok := selName(e); ok && name == "key" {
 				return "the file key"
 			}
@@ -1224,6 +1292,17 @@ func ruleIVProvenance(c *core.Ctx) {
 						if strings.HasPrefix(r, "make(") || strings.HasPrefix(r, "out[") {
 							fresh = true
 						}
+					}
+				}
+				if !fresh {
+					// a slice of storage created in this call: x[:] / x.f[:] with x a local array,
+					// a local struct, or a pointer to a struct allocated here
+					switch freshBytesHere(g, cv.V, cv.Call.Args[1], 4) {
+					case 1:
+						fresh = true
+					case 0:
+						o.Unrec("where the IV buffer %s comes from is not followed (is it allocated per call?)", core.ExprStr(cv.Call.Args[1]))
+						fresh = true
 					}
 				}
 				o.Require(fresh, "the IV buffer is not allocated per call")
@@ -1593,4 +1672,139 @@ func flattenHashPiece(s string) []string {
 		}
 	}
 	return strings.Split(s, ",")
+}
+
+// freshBytesHere classifies where a byte slice comes from: 1 = storage
+// created in this call (make, a local array or struct, a struct allocated
+// here, and slices or fields of those), -1 = storage that outlives the call
+// (a package-level variable, a field of the receiver or of a parameter),
+// 0 = not followed.
+func freshBytesHere(g *core.Graph, at *core.V, e ast.Expr, depth int) int {
+	info := g.Info
+	if depth <= 0 {
+		return 0
+	}
+	switch x := ast.Unparen(e).(type) {
+	case *ast.CallExpr:
+		if core.CalleeKey(info, x) == "builtin.make" || core.CalleeKey(info, x) == "builtin.new" {
+			return 1
+		}
+		return 0
+	case *ast.UnaryExpr:
+		if x.Op == token.AND {
+			if _, isLit := ast.Unparen(x.X).(*ast.CompositeLit); isLit {
+				return 1
+			}
+			return freshBytesHere(g, at, x.X, depth)
+		}
+		return 0
+	case *ast.CompositeLit:
+		return 1
+	case *ast.SliceExpr:
+		return freshBytesHere(g, at, x.X, depth)
+	case *ast.IndexExpr:
+		return freshBytesHere(g, at, x.X, depth)
+	case *ast.StarExpr:
+		return freshBytesHere(g, at, x.X, depth)
+	case *ast.SelectorExpr:
+		if s := info.Selections[x]; s != nil && s.Kind() == types.FieldVal {
+			return freshBytesHere(g, at, x.X, depth)
+		}
+		return -1 // a package-level variable of another package
+	case *ast.Ident:
+		v, ok := info.ObjectOf(x).(*types.Var)
+		if !ok {
+			return 0
+		}
+		if v.Pkg() != nil && v.Parent() == v.Pkg().Scope() {
+			return -1
+		}
+		// parameters and receivers: storage of the caller
+		if g.Fn != nil && g.Fn.Decl != nil {
+			isParam := false
+			check := func(fl *ast.FieldList) {
+				if fl == nil {
+					return
+				}
+				for _, f := range fl.List {
+					for _, n := range f.Names {
+						if info.ObjectOf(n) == types.Object(v) {
+							isParam = true
+						}
+					}
+				}
+			}
+			check(g.Fn.Decl.Recv)
+			check(g.Fn.Decl.Type.Params)
+			if isParam && len(defVertices(g, v)) == 0 {
+				return -1
+			}
+		}
+		defs := defVertices(g, v)
+		if len(defs) == 0 {
+			return 0
+		}
+		res := 1
+		for _, d := range defs {
+			rhs, ok := rhsFor(info, d, v)
+			if !ok {
+				return 0
+			}
+			if rhs == nil {
+				// var x T: a local array or struct is storage of this call
+				switch v.Type().Underlying().(type) {
+				case *types.Array, *types.Struct:
+					continue
+				}
+				return 0
+			}
+			switch freshBytesHere(g, d, rhs, depth-1) {
+			case -1:
+				return -1
+			case 0:
+				res = 0
+			}
+		}
+		return res
+	}
+	return 0
+}
+
+// explainedBy reports whether every piece of got is a number or is built on a
+// root that also occurs in want (the text before ">>"): then got is a reading
+// of the code in the vocabulary of the specification and a difference is a
+// difference of behaviour.  A piece on another root (a helper call, a local
+// the evaluation did not reduce, a compound expression) means the code was not
+// reduced to that vocabulary: the comparison decides nothing.
+func explainedBy(got, want []string) bool {
+	roots := map[string]bool{}
+	root := func(p string) string {
+		if j := strings.Index(p, ">>"); j >= 0 {
+			p = p[:j]
+		}
+		return strings.TrimSpace(p)
+	}
+	isNum := func(p string) bool {
+		if p == "" {
+			return false
+		}
+		for _, alt := range strings.Split(p, "|") {
+			for _, ch := range alt {
+				if ch < '0' || ch > '9' {
+					return false
+				}
+			}
+		}
+		return true
+	}
+	for _, w := range want {
+		roots[root(w)] = true
+	}
+	for _, g := range got {
+		if isNum(g) || roots[root(g)] {
+			continue
+		}
+		return false
+	}
+	return true
 }
